@@ -22,13 +22,20 @@ def replay(art):
     if ref is None:
         return 'prophyc rejected the schema: %s' % res.exc
     v = V.tree_from_json(art['value'])
-    le = T.build(ref, art['top'], v, getattr(mod, art['top'])()).encode('<')
-    be = T.build(ref, art['top'], v, getattr(mod, art['top'])()).encode('>')
+    cls = getattr(mod, art['top'])
     exp, spans = ref.encode(art['top'], v, '<')
-    if len(le) != len(be):
-        return 'lengths differ: %d vs %d' % (len(le), len(be))
-    if exp == le:
-        why = R.scalar_mirror_ok(spans, le, be)
-        if why:
-            return 'schema:\n%s\nvalue %r\n< %s\n> %s\n%s' % (art['schema'], v, le.hex(), be.hex(), why)
+    pairs = []
+    if art.get('build') == 'fresh':
+        m = cls()
+        outs = [m.encode(e) for e in '<><>']
+        pairs = [(outs[0], outs[1]), (outs[2], outs[3]), (outs[2], outs[1])]
+    else:
+        pairs = [(T.build(ref, art['top'], v, cls()).encode('<'), T.build(ref, art['top'], v, cls()).encode('>'))]
+    for le, be in pairs:
+        if len(le) != len(be):
+            return 'lengths differ: %d vs %d' % (len(le), len(be))
+        if R.differs_only_in_padding(spans, exp, le):
+            why = R.scalar_mirror_ok(spans, le, be)
+            if why:
+                return 'schema:\n%s\nvalue %r\n< %s\n> %s\n%s' % (art['schema'], v, le.hex(), be.hex(), why)
     return None
